@@ -2251,7 +2251,10 @@ class OrderedNamespaceSet(NamespaceSet[_NSO], MutableSequence[_NSO], Generic[_NS
 
     def __delitem__(self, i: Union[int, slice]) -> None:
         if isinstance(i, int):
-            i = slice(i, i+1)
+            # like a list: negative indices count from the end, an index out of range raises IndexError
+            super().remove(self._order[i])
+            del self._order[i]
+            return
         for o in self._order[i]:
             super().remove(o)
         del self._order[i]
